@@ -181,6 +181,17 @@ def check_struct(res, N, bl, strand, frames, gname, seq_checks=True):
     res.trans()
     if o[0] != "ok" or o[1] != [x.upper() for x in exp_codon_strs]:
         res.deviation("scan_codons", dict(op="scan_codons", **case), o[1], [x.upper() for x in exp_codon_strs], sig="scan_codons")
+    # the truncated codon walk ends WITH the first in-frame stop codon (the truncated protein, which ends in '*', is the
+    # translation of exactly these codons)
+    ups = [x.upper() for x in exp_codon_strs]
+    stop_at = next((i for i, c_ in enumerate(ups) if F.GENCODE.get(c_) == "*"), None)
+    exp_trunc = ups if stop_at is None else ups[: stop_at + 1]
+    cds4t = mk(bl, strand, frames, genome)
+    o = lib.outcome(lambda: [str(x) for x in cds4t.scan_codons(truncate_at_in_frame_stop=True)])
+    res.trans()
+    res.note("scan_codons", "truncated" if stop_at is not None and stop_at + 1 < len(ups) else "whole")
+    if o[0] != "ok" or o[1] != exp_trunc:
+        res.deviation("scan_codons", dict(op="scan_codons-truncate", **case), o[1], exp_trunc, sig="scan_codons-truncate")
     # translation: every (table, truncate, strict)
     for tab, trunc, strict in itertools.product((0, 1, 11), (False, True), (True, False)):
         cds5 = mk(bl, strand, frames, genome)
